@@ -98,6 +98,8 @@ func ruleSets(upstream string) hx.RuleSetFor {
 				config.MechanismConfig{"finalizer": "echo"}),
 			mk("dup", "/dup/:id", "", config.MechanismConfig{"finalizer": "dup_a"}, config.MechanismConfig{"finalizer": "dup_b"},
 				config.MechanismConfig{"finalizer": "cookie"}),
+			// a static segment written with an escape in the rule, as it appears on the request line
+			mk("static-escape", "/s/a%20b/:id", "", config.MechanismConfig{"finalizer": "echo"}),
 			mk("cond", "/cond/:id", "",
 				config.MechanismConfig{"finalizer": "cond_hdr", "if": `Request.Header("x-foo") != "" && Request.URL.Captures.id != ""`},
 				config.MechanismConfig{"finalizer": "echo"}),
@@ -108,11 +110,11 @@ func ruleSets(upstream string) hx.RuleSetFor {
 }
 
 var (
-	prefixes = []string{"/a/", "/n/", "/o/", "/cel/", "/dup/", "/cond/"}
-	ids      = []string{"v1", "v%201", "x%2Fy", "%C3%A4"}
+	prefixes = []string{"/a/", "/n/", "/o/", "/cel/", "/dup/", "/cond/", "/s/a%20b/"}
+	ids      = []string{"v1", "v%201", "x%2Fy", "%C3%A4", "100%25", "100%2525"}
 	queries  = []string{"", "q=1&q=2", "q=a%20b"}
 	hdrKinds = []string{"none", "single", "repeated", "lower"}
-	cookies  = []string{"", "c=1", "c=1; d=2"}
+	cookies  = []string{"", "c=1", "c=1; d=2", "c=1; d=2; c=3"}
 	bodies   = []string{"none", "json", "form", "badjson"}
 )
 
@@ -358,7 +360,7 @@ func cases(quick bool) []Case {
 						for _, h := range hdrKinds {
 							for _, ck := range cookies {
 								for _, b := range bodies {
-									if quick && ((sch == "https" && b != "none") || (ck == "c=1; d=2" && q != "")) {
+									if quick && ((sch == "https" && b != "none") || (strings.Contains(ck, ";") && q != "")) {
 										continue
 									}
 
